@@ -1047,15 +1047,89 @@ func c20IDFamily(run *c20Run, batch int) {
 // ===========================================================================
 // 4. configuration maps of Netmap and NeoFS
 
+// A configuration value as passed to the contract: a byte string (Ty ""), or
+// an Integer / Boolean / Null stack item (Ty "int" / "bool" / "null").
+type c20CfgVal struct {
+	Ty string
+	B  []byte
+	I  *big.Int
+	Bo bool
+}
+
+func c20VB(b ...byte) c20CfgVal { return c20CfgVal{B: b} }
+
+// arg is what is handed to neotest; canon is the canonical byte form that a
+// reader must get back (byte strings verbatim; Integer = minimal little-endian
+// two's complement; Boolean = 01 / 00).
+func (x c20CfgVal) arg() any {
+	switch x.Ty {
+	case "int":
+		return x.I
+	case "bool":
+		return x.Bo
+	case "null":
+		return nil
+	}
+	if x.B == nil {
+		return []byte{}
+	}
+	return x.B
+}
+
+func (x c20CfgVal) canon() []byte {
+	switch x.Ty {
+	case "int":
+		return c20Enc(x.I)
+	case "bool":
+		if x.Bo {
+			return []byte{1}
+		}
+		return []byte{0}
+	case "null":
+		return nil
+	}
+	return x.B
+}
+
+func (x c20CfgVal) coq(p *c20Pool) string {
+	switch x.Ty {
+	case "int":
+		return "(VInt " + ZLit(x.I) + ")"
+	case "bool":
+		return "(VBool " + BoolLit(x.Bo) + ")"
+	case "null":
+		return "VNull"
+	}
+	return "(" + p.VB(x.B) + ")"
+}
+
+func (x c20CfgVal) String() string {
+	switch x.Ty {
+	case "int":
+		return "Integer " + x.I.String()
+	case "bool":
+		return fmt.Sprintf("Boolean %v", x.Bo)
+	case "null":
+		return "Null"
+	}
+	return Hex(x.B)
+}
+
 type c20CfgOp struct {
-	Alpha        bool
-	ID, Key, Val []byte
+	Alpha   bool
+	ID, Key []byte
+	Val     c20CfgVal
+}
+
+type c20CfgInit struct {
+	Key []byte
+	Val c20CfgVal
 }
 
 type c20CfgHistory struct {
 	Name  string
 	NeoFS bool
-	Init  [][2][]byte
+	Init  []c20CfgInit
 	Keys  [][]byte
 	Ops   []c20CfgOp
 }
@@ -1066,7 +1140,7 @@ var (
 )
 
 func (o c20CfgOp) String() string {
-	return fmt.Sprintf("setConfig(alpha=%v, id=%s, key=%q, value=%s)", o.Alpha, Hex(o.ID), o.Key, Hex(o.Val))
+	return fmt.Sprintf("setConfig(alpha=%v, id=%s, key=%q, value=%s)", o.Alpha, Hex(o.ID), o.Key, o.Val)
 }
 
 // c20Pairs projects listConfig (array of [key, value] structures; Null when empty).
@@ -1095,7 +1169,7 @@ func c20RunCfg(run *c20Run, p *c20Pool, hs c20CfgHistory, corpus bool) string {
 	v := NewEnv(t)
 	var init []any
 	for _, kv := range hs.Init {
-		init = append(init, kv[0], kv[1])
+		init = append(init, kv.Key, kv.Val.arg())
 	}
 	if init == nil {
 		init = []any{}
@@ -1119,7 +1193,7 @@ func c20RunCfg(run *c20Run, p *c20Pool, hs c20CfgHistory, corpus bool) string {
 	h := run.newHist(fam, hs.Name, corpus)
 	ref := map[string][]byte{}
 	for _, kv := range hs.Init {
-		ref[string(kv[0])] = kv[1]
+		ref[string(kv.Key)] = kv.Val.canon()
 	}
 	// the model state is the storage under "config": nothing else may start with it
 	nOther := 0
@@ -1134,19 +1208,28 @@ func c20RunCfg(run *c20Run, p *c20Pool, hs c20CfgHistory, corpus bool) string {
 		if !op.Alpha {
 			sg = []neotest.Signer{stranger}
 		}
-		r := v.Invoke(sg, hash, "setConfig", op.ID, op.Key, op.Val)
+		r := v.Invoke(sg, hash, "setConfig", op.ID, op.Key, op.Val.arg())
 		h.op("setConfig", op.String(), r.Halt, true)
 		fits := len(op.Key)+6 <= 64
+		// NeoFS notifies SetConfig(id, key, val) with val declared ByteArray: an
+		// Integer / Boolean value makes runtime.Notify fault there; Netmap stores
+		// it in canonical form.  Null makes storage.Put fault in both.
+		typeOK := op.Val.Ty == "" || (!hs.NeoFS && op.Val.Ty != "null")
 		switch {
 		case r.Halt && !op.Alpha:
 			h.violate("setConfig accepted without the committee witness")
 		case r.Halt && !fits:
 			h.violate("setConfig accepted a storage key longer than 64 bytes")
-		case !r.Halt && op.Alpha && fits:
-			h.violate("setConfig by the committee refused")
+		case r.Halt && !typeOK:
+			h.violate("setConfig accepted a " + op.Val.Ty + " value")
+		case !r.Halt && op.Alpha && fits && typeOK:
+			h.violate("setConfig by the committee refused: " + r.Fault)
+		}
+		if !r.Halt && op.Alpha && fits && !typeOK {
+			h.note("setConfig with an Integer/Boolean value faults in NeoFS (Notify type check), with Null in both (storage.Put)")
 		}
 		if r.Halt {
-			ref[string(op.Key)] = op.Val
+			ref[string(op.Key)] = op.Val.canon()
 		}
 		var ns []string
 		nEv := 0
@@ -1162,7 +1245,7 @@ func c20RunCfg(run *c20Run, p *c20Pool, hs c20CfgHistory, corpus bool) string {
 			}
 			ns = append(ns, VList(f))
 			if ev.Name != "SetConfig" || len(items) != 3 || !bytes.Equal(ItemBytes(items[0]), op.ID) ||
-				!bytes.Equal(ItemBytes(items[1]), op.Key) || !bytes.Equal(ItemBytes(items[2]), op.Val) {
+				!bytes.Equal(ItemBytes(items[1]), op.Key) || !bytes.Equal(ItemBytes(items[2]), op.Val.canon()) {
 				h.violate("unexpected notification " + ev.Name)
 			}
 		}
@@ -1246,36 +1329,148 @@ func c20RunCfg(run *c20Run, p *c20Pool, hs c20CfgHistory, corpus bool) string {
 			h.violate("setConfig changed storage outside the config prefix")
 		}
 		obs := VList([]string{res, p.VL(ns), p.VL(gets), p.VL(ps)})
-		steps = append(steps, fmt.Sprintf("(CSet %s %s %s %s, %s)", BoolLit(op.Alpha), p.Ref(op.ID), p.Ref(op.Key), p.Ref(op.Val), p.T(obs)))
+		steps = append(steps, fmt.Sprintf("(CSet %s %s %s %s, %s)", BoolLit(op.Alpha), p.Ref(op.ID), p.Ref(op.Key), op.Val.coq(p), p.T(obs)))
 	}
 	h.finish()
 	var ini []string
 	for _, kv := range hs.Init {
-		ini = append(ini, fmt.Sprintf("(%s, %s)", p.Ref(kv[0]), p.Ref(kv[1])))
+		ini = append(ini, fmt.Sprintf("(%s, %s)", p.Ref(kv.Key), p.Ref(kv.Val.canon())))
 	}
 	return fmt.Sprintf("(%s, %s, %s, %s)", kd, ListLit(ini), p.Refs(hs.Keys), ListLit(steps))
 }
 
+// c20CfgLens are the value lengths every configuration store is exercised
+// with; c20CfgShape builds a value of length n that is NOT a minimal integer
+// encoding whenever n allows it (redundant trailing 00 / ff sign-extension
+// bytes, all zero, all ff, led by 80) — a store must return it byte for byte.
+var c20CfgLens = []int{0, 1, 2, 3, 4, 5, 6, 7, 8, 9, 16, 32, 33}
+
+const c20CfgShapes = 7
+
+func c20CfgShape(n, shape int, salt string) []byte {
+	b := make([]byte, n)
+	switch shape {
+	case 0: // all zero
+	case 1: // all ff
+		for i := range b {
+			b[i] = 0xff
+		}
+	case 2: // led by 80, then zeros
+		if n > 0 {
+			b[0] = 0x80
+		}
+	case 3: // small number, little-endian, padded with 00 (uint64-style)
+		if n > 0 {
+			b[0] = 0x10
+		}
+		if n > 2 {
+			b[1] = 0x27
+		}
+	case 4: // negative number padded with ff
+		for i := range b {
+			b[i] = 0xff
+		}
+		if n > 0 {
+			b[0] = 0x85
+		}
+	case 5: // 00 00 10 00 ... (the third byte set, like 1 MiB as uint64 LE)
+		if n > 2 {
+			b[2] = 0x10
+		} else if n > 0 {
+			b[n-1] = 0x00
+		}
+	default: // arbitrary bytes ending in 00 (or in 80 00)
+		copy(b, c20Bytes("cfgval-"+salt, n))
+		if n > 0 {
+			b[n-1] = 0
+		}
+		if n > 1 {
+			b[n-2] = 0x80
+		}
+	}
+	return b
+}
+
 func c20CfgCorpus() []c20CfgHistory {
 	B := func(s string) []byte { return []byte(s) }
-	set := func(k string, v ...byte) c20CfgOp { return c20CfgOp{Alpha: true, ID: []byte{9}, Key: B(k), Val: v} }
-	bad := func(k string, v ...byte) c20CfgOp { return c20CfgOp{Alpha: false, ID: []byte{8}, Key: B(k), Val: v} }
+	set := func(k string, v ...byte) c20CfgOp { return c20CfgOp{Alpha: true, ID: []byte{9}, Key: B(k), Val: c20VB(v...)} }
+	bad := func(k string, v ...byte) c20CfgOp { return c20CfgOp{Alpha: false, ID: []byte{8}, Key: B(k), Val: c20VB(v...)} }
+	ini := func(k string, v ...byte) c20CfgInit { return c20CfgInit{Key: B(k), Val: c20VB(v...)} }
+	setI := func(k string, i int64) c20CfgOp {
+		return c20CfgOp{Alpha: true, ID: []byte{7}, Key: B(k), Val: c20CfgVal{Ty: "int", I: big.NewInt(i)}}
+	}
+	setB := func(k string, b bool) c20CfgOp {
+		return c20CfgOp{Alpha: true, ID: []byte{6}, Key: B(k), Val: c20CfgVal{Ty: "bool", Bo: b}}
+	}
 	fee := c20Enc(big.NewInt(100000000))
 	var out []c20CfgHistory
 	for _, neofs := range []bool{false, true} {
 		out = append(out,
-			c20CfgHistory{Name: "prefix-keys", NeoFS: neofs, Init: [][2][]byte{{B("ContainerFee"), fee}, {B("ab"), {1}}},
+			c20CfgHistory{Name: "prefix-keys", NeoFS: neofs, Init: []c20CfgInit{ini("ContainerFee", fee...), ini("ab", 1)},
 				Keys: [][]byte{{}, B("a"), B("ab"), B("abc"), B("b"), B("ContainerFee")},
 				Ops: []c20CfgOp{set("a", 2), set("abc", 3), set("", 4), set("ab"), set("b", 5, 6), bad("a", 7), set("a", 8), set("ContainerFee", 1), set("abc")}},
 			c20CfgHistory{Name: "key-limit", NeoFS: neofs, Init: nil,
 				Keys: [][]byte{c20CfgKey58, c20CfgKey59, B("k"), {}},
 				Ops: []c20CfgOp{set(string(c20CfgKey59), 1), set(string(c20CfgKey58), 2), set("k", 3), bad(string(c20CfgKey58), 4), set(string(c20CfgKey58)), set(string(c20CfgKey59))}},
-			c20CfgHistory{Name: "init-duplicates", NeoFS: neofs, Init: [][2][]byte{{B("a"), {1}}, {B("a"), {2}}, {{}, {3}}, {B("z"), {}}},
+			c20CfgHistory{Name: "init-duplicates", NeoFS: neofs, Init: []c20CfgInit{ini("a", 1), ini("a", 2), ini("", 3), ini("z")},
 				Keys: [][]byte{B("a"), {}, B("z"), B("y")},
-				Ops: []c20CfgOp{bad("y", 1), {true, nil, B("z"), []byte{1}}, set("y"), {true, c20Bytes("cfgid", 32), B("a"), nil}}},
+				Ops: []c20CfgOp{bad("y", 1), {true, nil, B("z"), c20VB(1)}, set("y"), {true, c20Bytes("cfgid", 32), B("a"), c20VB()}}},
+			// fixed-width little-endian numbers: 8 bytes with redundant high bytes
+			c20CfgHistory{Name: "uint64-values", NeoFS: neofs,
+				Init: []c20CfgInit{ini("MaxObjectSize", 0, 0, 16, 0, 0, 0, 0, 0), ini("Zero8", 0, 0, 0, 0, 0, 0, 0, 0)},
+				Keys: [][]byte{B("MaxObjectSize"), B("Zero8"), B("Neg8"), B("EpochDuration"), B("Text8")},
+				Ops: []c20CfgOp{set("EpochDuration", 240, 0, 0, 0, 0, 0, 0, 0), set("Neg8", 255, 255, 255, 255, 255, 255, 255, 255),
+					set("MaxObjectSize", 0, 0, 32, 0, 0, 0, 0, 0), set("Zero8", 0, 0, 0, 0, 0, 0, 0, 0), set("Text8", B("TheValue")...),
+					set("Neg8", 0x85, 255, 255, 255, 255, 255, 255, 255), set("EpochDuration", 0, 0, 0, 0, 0, 0, 0, 0x80),
+					set("Zero8", 0x80, 0, 0, 0, 0, 0, 0, 0), set("Zero8", 1, 0, 0, 0, 0, 0, 0, 0)}},
+			// Integer / Boolean / Null stack items as values (deploy accepts the first two)
+			c20CfgHistory{Name: "typed-values", NeoFS: neofs,
+				Init: []c20CfgInit{{B("ContainerFee"), c20CfgVal{Ty: "int", I: big.NewInt(123)}}, {B("Flag"), c20CfgVal{Ty: "bool", Bo: true}},
+					{B("Off"), c20CfgVal{Ty: "bool"}}, {B("Minus"), c20CfgVal{Ty: "int", I: big.NewInt(-129)}}, {B("Nought"), c20CfgVal{Ty: "int", I: big.NewInt(0)}}},
+				Keys: [][]byte{B("ContainerFee"), B("Flag"), B("Off"), B("Minus"), B("Nought"), B("k")},
+				Ops: []c20CfgOp{setI("k", 5), set("k", 5, 0), setB("k", true), setB("Flag", false), setI("Minus", -1), setI("Nought", 0),
+					{true, []byte{5}, B("k"), c20CfgVal{Ty: "null"}}, setI("ContainerFee", 1<<40), set("ContainerFee", 0, 0, 0, 0, 0, 1, 0, 0),
+					{false, []byte{4}, B("k"), c20CfgVal{Ty: "int", I: big.NewInt(7)}}}},
 		)
+		// every length, every shape, set and read back
+		for shape := 0; shape < c20CfgShapes; shape++ {
+			hs := c20CfgHistory{Name: fmt.Sprintf("value-shapes-%d", shape), NeoFS: neofs, Keys: [][]byte{B("v0"), B("v8"), B("v9"), B("v33")}}
+			for i, n := range c20CfgLens {
+				k := fmt.Sprintf("v%d", n)
+				val := c20VB(c20CfgShape(n, shape, k)...)
+				if i%2 == 0 {
+					hs.Init = append(hs.Init, c20CfgInit{Key: B(k), Val: val})
+				}
+				hs.Ops = append(hs.Ops, c20CfgOp{Alpha: true, ID: []byte{byte(shape)}, Key: B(k), Val: c20VB(c20CfgShape(n, (shape+1+i)%c20CfgShapes, k)...)})
+			}
+			hs.Ops = append(hs.Ops, c20CfgOp{Alpha: true, ID: []byte{0xee}, Key: B("v8"), Val: c20VB(c20CfgShape(8, shape, "again")...)})
+			out = append(out, hs)
+		}
 	}
 	return out
+}
+
+func c20CfgRandomVal(r *rand.Rand, salt string, typed bool) c20CfgVal {
+	if typed && r.Intn(6) == 0 {
+		switch r.Intn(4) {
+		case 0:
+			return c20CfgVal{Ty: "bool", Bo: r.Intn(2) == 0}
+		case 1:
+			return c20CfgVal{Ty: "null"}
+		default:
+			is := []int64{0, 1, -1, 127, 128, -128, -129, 255, 256, 100000000, 1 << 40, -(1 << 40)}
+			return c20CfgVal{Ty: "int", I: big.NewInt(is[r.Intn(len(is))])}
+		}
+	}
+	if r.Intn(5) == 0 {
+		old := [][]byte{{}, {0}, {1}, {1, 2}, []byte("val"), c20Enc(big.NewInt(100000000))}
+		return c20VB(old[r.Intn(len(old))]...)
+	}
+	n := c20CfgLens[r.Intn(len(c20CfgLens))]
+	if r.Intn(3) == 0 {
+		n = 8
+	}
+	return c20VB(c20CfgShape(n, r.Intn(c20CfgShapes), salt)...)
 }
 
 func c20CfgRandom(r *rand.Rand, i int) c20CfgHistory {
@@ -1284,16 +1479,17 @@ func c20CfgRandom(r *rand.Rand, i int) c20CfgHistory {
 		c20CfgKey58, c20CfgKey59}
 	r.Shuffle(len(names), func(a, b int) { names[a], names[b] = names[b], names[a] })
 	hs.Keys = names[:4+r.Intn(3)]
-	vals := [][]byte{{}, {0}, {1}, {1, 2}, []byte("val"), c20Enc(big.NewInt(100000000))}
 	for k := r.Intn(3); k > 0; k-- {
 		key := hs.Keys[r.Intn(len(hs.Keys))]
-		if len(key) <= 58 {
-			hs.Init = append(hs.Init, [2][]byte{key, vals[r.Intn(len(vals))]})
+		val := c20CfgRandomVal(r, fmt.Sprintf("i%d-%d", i, k), true)
+		if len(key) <= 58 && val.Ty != "null" {
+			hs.Init = append(hs.Init, c20CfgInit{Key: key, Val: val})
 		}
 	}
 	n := 6 + r.Intn(7)
 	for k := 0; k < n; k++ {
-		hs.Ops = append(hs.Ops, c20CfgOp{Alpha: r.Intn(8) != 0, ID: []byte{byte(k)}, Key: hs.Keys[r.Intn(len(hs.Keys))], Val: vals[r.Intn(len(vals))]})
+		hs.Ops = append(hs.Ops, c20CfgOp{Alpha: r.Intn(8) != 0, ID: []byte{byte(k)}, Key: hs.Keys[r.Intn(len(hs.Keys))],
+			Val: c20CfgRandomVal(r, fmt.Sprintf("o%d-%d", i, k), true)})
 	}
 	return hs
 }
